@@ -35,7 +35,8 @@ UniqueBack(pat, asg) == Decomps(pat, Built(pat, asg)) = {asg}
 RoundTrip(pat, asg) == asg \in Decomps(pat, Built(pat, asg))
 
 \* ---- the name table: last writer wins, whichever API ----------------------------------------------
-\* ops: [api |-> "AddNamed"|"NewNamedRoute+AddRoute"|"NewNamedRoute+AttachTo"|"Add+NamedTo", name |-> n, route |-> id]
+\* ops: [api |-> "AddNamed"|"NewNamedRoute+AddRoute"|"NewNamedRoute+AttachTo"|"Add+NamedTo"|"Rename", name |-> n, route |-> id]
+\* ("Rename" = NamedTo on an EXISTING route id: it gains the name; its earlier names keep pointing wherever they point)
 NameTable(ops) == [n \in { ops[i].name : i \in 1..Len(ops) } |->
                      ops[CHOOSE i \in 1..Len(ops) : ops[i].name = n /\ \A j \in (i + 1)..Len(ops) : ops[j].name # n].route]
 =============================================================================
